@@ -8,6 +8,15 @@ ENGINE = "lean-proof+correspondence"
 NOT_YET = "not yet claimed: model, theorems and correspondence for this property are still being built (see DESIGN.md build order); Lean proof is applicable"
 
 CLAIMED = {
+    "C17": dict(
+        text="Machine-checked for all templates (any character list, str and bytes) and all literal arguments: outside 10 decidable exception classes, the Lean model of pyanalyze's % checker (regex scanner, lint, tuple/mapping accept, result type) reports whenever the Lean spec of CPython's % formatter raises, and is silent up to the two documented lint rules when it succeeds (percent_reports_if_raises_partial, percent_silent_if_ok_partial, percent_result_type_partial); on str.format templates without ':' '.' '[' '!' that do not mix numbering modes, pyanalyze's parser and accounting agree with CPython's (format_plain_iff_partial, format_accounting_iff_partial). The full statements are shown false on 14 decided witnesses (each a listed finding). str.format paths, specs and conversions are covered by model, correspondence and search only (classes fmtPath/fmtSpec), not by theorems. Tie: live regex vs scanner, unit and end-to-end message streams vs model, real % / .format evaluation vs spec, on every run.",
+        note="Trusted: Lean kernel + 3 axioms; hand-written model tied to /repo by unit and e2e differential streams; CPython spec validated against real evaluation each run; the scanner equals the regex only on the tested small-alphabet strings; ASCII-digit \\d; literal arguments only; the .format parser is fuelled with 2*len+2."),
+    "C18": dict(
+        text="Proof: for valid stacks of chained config files of any depth, any command line and any module path, lookup_precedence_partial shows the Lean model of parse_config_file/_parse_config_section/from_option_list/get_value_for returns exactly the value of the documented precedence sentence (first-match and concatenating options, disable_all desugaring), outside decidable exception classes each with a decided witness; full-strength theorems cover the sort-key lookup on arbitrary instance lists, command-line precedence, single-file configurations, acceptance of valid configurations, and rejection of recursive/missing inclusion and of everything the parser checks; bad_config_rejected_partial covers the rejection clause. Model and spec are tied to the code on every run: model vs pyanalyze through real TOML files and the real prepare_constructor_kwargs (value, error kind, is_error_code_enabled), spec vs an independent Python implementation; the option registry table is regenerated from the live registry and re-checked by the kernel.",
+        note="Trusted: Lean kernel + 3 axioms; tomli/pathlib (the model starts at the decoded table, file names are atoms); sampled correspondence (exhaustive family of 13104 stacks complete in thorough, depth <= 2 complete in quick); PyObjectSequence/IgnoredPaths options, extend_config inside override tables and duplicate-module ties are outside the theorems."),
+    "C19": dict(
+        text="Proof + regenerated finite table. For literal subscripts the Lean model of _sequence_common_getitem_impl is proved, for all lengths and all int keys, to report exactly CPython's IndexError and to return exactly the indexed element (getitem_literal_iff, getitem_literal_value); for partly variadic members it is proved sound for every expansion (getitem soundness theorem). The operator fallback protocol is proved to report iff CPython's dunder dispatch raises TypeError, under explicit decidable hypotheses. The property's finite quantifier (34 literals x 13 binary / 3 unary operators, 26 attribute names, 15 indices = 16354 operations) is enumerated from the live tree and from CPython on every run and re-proved by the kernel (ops_table_agree, ops_table_conforms, ops_table_spec) outside five decidable exception classes, each a listed finding with a witness.",
+        note="Trusted: Lean kernel + 3 axioms; hand-written models tied to the code by differential streams on every run (getitem, binop unit facts, attribute fallback); values canonicalised as (type, exact repr); CPython 3.12.1 as oracle; cpyBinop is a dunder-level abstraction of binary_op1 validated on every binary row; % on str/bytes, ordering comparisons and exceptions other than TypeError/AttributeError/IndexError are outside the property."),
     "C03": dict(
         text="Model `ca` (Core/Assign.lean) of Value.can_assign follows value.py/type_object.py branch by branch; class-level facts (nominal relation incl. protocol checks, generic bases) are a table regenerated from the live tree and the kernel re-checks `tableOk liveTable` on every run. Theorem assign_known_eq_mem_partial: for every table satisfying the laws and every well-formed static type and object outside three exception classes (variadicTuple, frozensetLiteral, protoClassObj — each a listed finding with a proved witness) can_assign(T, Literal o) = structural membership. Tie: ca vs pyanalyze on thousands of generated (type, object) pairs per run, spec `mem` vs a CPython-isinstance reference; property searched directly through runtime.is_assignable and `x: T = literal` diagnostics.",
         note="Trusted: Lean kernel + 3 standard axioms; class table translator; correspondence is sampled; TypedDict/Callable/TypeVar types are outside the Lean model (searched on the implementation only); oracle decisions for NewType / str-as-Sequence / promotion under type[] are stated in DESIGN §6/C03."),
